@@ -17,7 +17,7 @@ import sys
 import traceback
 import warnings
 
-from ..absmodel import (ALT_NAMES, DEFAULT_NAMES, NONE, as_dict, make_mutation,
+from ..absmodel import (resolve_col, ALT_NAMES, DEFAULT_NAMES, NONE, as_dict, make_mutation,
                         norm_mutation, norm_sig, project_mutation, project_sig,
                         short, sig_equal_abstract)
 from ..common import scratch_dir
@@ -206,7 +206,7 @@ def rows_vs_expected(snap, expected, final_sig, names):
         # rows are matched through the model's primary key, whatever it is called by now
         pkf = next((fn for fn, fs in final[mn]['fields'].items()
                     if as_dict(fs['attrs']).get('primary_key')), 'id')
-        pkc = as_dict(final[mn]['fields'].get(pkf, {}).get('attrs', {})).get('db_column') or names.field(pkf)
+        pkc = resolve_col(as_dict(final[mn]['fields'].get(pkf, {}).get('attrs', {})).get('db_column'), names) or names.field(pkf)
         real_by_id = {r.get(pkc): r for r in real}
         for r in rows:
             rr = real_by_id.get(r.get(pkf))
@@ -217,7 +217,7 @@ def rows_vs_expected(snap, expected, final_sig, names):
                 fs = final[mn]['fields'].get(fn)
                 if fs is None or fs['ftype'] == 'M2M':
                     continue
-                col = as_dict(fs['attrs']).get('db_column') or (
+                col = resolve_col(as_dict(fs['attrs']).get('db_column'), names) or (
                     names.field(fn) + ('_id' if fs['ftype'] in ('FK', 'O2O') else ''))
                 if col not in rr:
                     out.append({'table': table, 'kind': 'column-missing', 'column': col})
@@ -241,7 +241,7 @@ def start_rows_of(rig):
             for fn, fs in ms['fields'].items():
                 if fs['ftype'] == 'M2M':
                     continue
-                col = as_dict(fs['attrs']).get('db_column') or (
+                col = resolve_col(as_dict(fs['attrs']).get('db_column'), names) or (
                     names.field(fn) + ('_id' if fs['ftype'] in ('FK', 'O2O') else ''))
                 row[fn] = r.get(col)
             rows.append(row)
@@ -565,7 +565,9 @@ def abstract_fresh_vs_real(spec_fresh, fresh_proj, names):
         want_tables[names.table(t) if t.startswith('t_') else t] = info
 
     def col(c):
-        # abstract column names are abstract field names (+ "_id")
+        # abstract column names are abstract field names (+ "_id"); "@f" = the default column of f
+        if isinstance(c, str) and c.startswith('@'):
+            return names.field(c[1:])
         base, suffix = (c[:-3], '_id') if c.endswith('_id') and c[:-3] in names.fields else (c, '')
         return names.fields.get(base, base) + suffix
     for t, info in want_tables.items():
